@@ -1,41 +1,59 @@
-(* C01 — Arbitrary input is processed totally: no panic, overflow, hang or internal error (lexer and dispatcher; conversions and list iterators: see the conversion theorems added below as they are built)
+(* C01 — Arbitrary input is processed totally: no panic, overflow, hang or internal error
    Statements only: each theorem is closed by `exact` of a lemma proved in the *_proofs.v files. *)
-From VF Require Import Base Gen_Errors Lexer Response Tree Lexer_proofs Tree_proofs.
+From VF Require Import Base Gen_Errors Lexer Response Tree Conv Lists Lexer_proofs Tree_proofs Conv_proofs Lists_proofs.
 Open Scope N_scope.
 
 Section C01_statements.
 Context {D : Type}.
 
 Theorem C01_lex_next_no_panic : forall l, exists s, lex_next l = Val s.
-Proof. exact lex_next_no_panic. Qed.
+Proof. apply lex_next_no_panic. Qed.
 
 Theorem C01_lex_progress : forall l t l', lex_next l = Val (STok t l') ->
   (length (chars l') < length (chars l))%nat.
-Proof. exact lex_progress. Qed.
+Proof. apply lex_progress. Qed.
 
 Theorem C01_lex_total : forall input, exists ts, tokenize input = Val ts.
-Proof. exact lex_total. Qed.
+Proof. apply lex_total. Qed.
 
 Theorem C01_lex_params_total : forall input, exists ts, tokenize_params input = Val ts.
-Proof. exact lex_params_total. Qed.
+Proof. apply lex_params_total. Qed.
 
 Theorem C01_tokenize_shape : forall l ts, tokenize_from l = Val ts ->
   exists toks, ts = map IOk toks \/ exists e, ts = map IOk toks ++ [IErr e].
-Proof. exact tokenize_shape. Qed.
+Proof. apply tokenize_shape. Qed.
 
 Theorem C01_run_tokens_total : forall (root : tree D) toks d f, exists r, run_tokens root toks d f = Val r.
-Proof. exact run_tokens_total. Qed.
+Proof. apply run_tokens_total. Qed.
 
 Theorem C01_run_total : forall (root : tree D) input d f, exists r, run root input d f = Val r.
-Proof. exact run_total. Qed.
+Proof. apply run_total. Qed.
 
 Theorem C01_pull_only_data : forall toks t r,
   next_optional_token toks = (Got t, r) -> is_data t = true.
-Proof. exact pull_only_data. Qed.
+Proof. apply pull_only_data. Qed.
 
 Theorem C01_pull_req_only_data : forall toks t r,
   next_token toks = (Got t, r) -> is_data t = true.
-Proof. exact pull_req_only_data. Qed.
+Proof. apply pull_req_only_data. Qed.
+
+Theorem C01_conv_total : forall tok, is_data tok = true ->
+  (forall t, exists r, conv_int t tok = Val r) /\ (forall t, exists r, conv_float t tok = Val r)
+  /\ (exists r, conv_bool tok = Val r) /\ (forall t, exists r, conv_bytes t tok = Val r).
+Proof. apply conv_total. Qed.
+
+Theorem C01_nlist_total : forall expr, exists l, nlist_entries expr = Val l.
+Proof. apply nlist_total. Qed.
+
+Theorem C01_clist_total : forall expr r, clist_entries expr = Some r -> exists l, r = Val l.
+Proof. apply clist_total. Qed.
+
+Theorem C01_spec_values_total : forall s, exists l, spec_values s = Val l.
+Proof. apply spec_values_total. Qed.
+
+Theorem C01_spec_tuple_total : forall k s,
+  (exists r, spec_to_tuple k s = Val r) /\ (exists r, spec_to_utuple k s = Val r).
+Proof. apply spec_tuple_total. Qed.
 
 End C01_statements.
 
@@ -48,3 +66,8 @@ Print Assumptions C01_run_tokens_total.
 Print Assumptions C01_run_total.
 Print Assumptions C01_pull_only_data.
 Print Assumptions C01_pull_req_only_data.
+Print Assumptions C01_conv_total.
+Print Assumptions C01_nlist_total.
+Print Assumptions C01_clist_total.
+Print Assumptions C01_spec_values_total.
+Print Assumptions C01_spec_tuple_total.
